@@ -25,6 +25,9 @@ func checkHostListenerSlices(c *core.Ctx) {
 		}
 		info := p.TypesInfo
 		isHostCall := func(call *ast.CallExpr) bool {
+			if isHost, _ := hostBodyCall(info, call); isHost {
+				return true
+			}
 			se, ok := call.Fun.(*ast.SelectorExpr)
 			if !ok || se.Sel.Name != "Call" {
 				return false
